@@ -77,7 +77,7 @@ def main(tier, replay=None):
     nops = (lambda: rng.choice([60, 160])) if quick else (lambda: rng.choice([200, 1000]))
     ALIEN = ["alien_" + x for x in ("c_str", "c_int", "c_float", "call", "start", "stop", "lock", "sclose", "deref", "current", "currentelem", "sort", "push", "pop", "concat", "join")]
     for kind in ("Array", "List", "Tuple"):
-        bad = list(SEQ_BAD) + ALIEN
+        bad = list(SEQ_BAD) + ALIEN + (["zt_get", "zt_getneg", "zt_set", "zt_pop", "zt_popat", "zt_pushat"] if kind == "Tuple" else [])
         if kind != "Tuple":
             bad += SEQ_BAD_OWNING
         if kind != "Tuple":
